@@ -3,7 +3,7 @@
 // Contracts for package encoder, checked by /verif/govc. Comment-only; compiled only under the build tag "verif".
 package encoder
 
-//@ property C28
+//@ property C28 C19
 
 //@ func (*StringContinuationTokenSerializer).Serialize(ts, ulid, objType) (token, err)
 //@   ensures @empty ulid == "" ==> err != nil && token == nil
